@@ -146,6 +146,8 @@ def parseFvE (h : Hooks) : Nat → Bytes → Nat → Bool → St → Except Err 
     | .error e => .error e
     | .ok blocks =>
     let i := fvInfoOf data blocks fvOffset resizable
+    -- repaired (fix 53530a3): a block-map entry (terminator included) ending past `Length` is an error
+    if 56 + 8 * (blocks.length + 1) > i.length then .error .err else
     match setPolarity (polOfAttrs i.attrs) st with
     | .error e => .error e
     | .ok st =>
